@@ -8,12 +8,16 @@ uint8_t vp_u8(void); uint16_t vp_u16(void); uint32_t vp_u32(void); uint64_t vp_u
 void vp_assume(uint32_t c);
 void vp_assert(uint32_t c, const char* msg);   // msg must be a string literal
 void vp_observe(uint64_t v);                   // adds a value to the differential transcript (no-op under CBMC)
-void vp_witness(void);                         // reachability witness: expected to FAIL under CBMC
+void vp_witness(void);
+void vp_accept(void);                         // second witness: marks the accepting path (expected reachable iff Inst.accept)                         // reachability witness: expected to FAIL under CBMC
 uint8_t* vp_buf(uint32_t n);                   // malloc(n) exactly, symbolic contents
 uint8_t* vp_alloc(uint32_t n);
 void vp_free(uint8_t* p);
 uint32_t vp_param(uint32_t i);                 // concrete per-instance parameter (buffer length, k, ...)
 int vp_native_mode(void);
+uint32_t vp_r_ok(const uint8_t* p, uint32_t n);       // range readable (CBMC __CPROVER_r_ok; 1 natively)
+uint32_t vp_w_ok(uint8_t* p, uint32_t n);
+uint32_t vp_choice(void);                             // nondeterministic choice of a stub (not part of the replayed input stream)
 }
 #define H(name) extern "C" void name(void)
 #endif
